@@ -43,12 +43,13 @@ fn gen(rng: &mut Rng, tier: Tier) -> Value {
   if rng.chance(1, 3) {
     cfg.max_text = 14;
   }
-  json!({ "spec": gen_case(rng, &cfg) })
+  json!({ "spec": gen_case(rng, &cfg), "prelude": super::gen_prelude(rng) })
 }
 
 fn check(case: &Value, obs: &mut Obs) {
   let spec = super::spec_of(case);
   let src = build_box(&spec);
+  super::run_prelude(case, &src, obs);
   let prov = provenance(&spec);
   let text: String = String::from_utf8_lossy(&prov.iter().map(|p| p.0).collect::<Vec<u8>>()).to_string();
   let source = src.source().to_string();
